@@ -98,6 +98,18 @@ pub fn c16_line_of_position() {
     std::mem::forget(l);
 }
 
+/// the two public helpers themselves are total for every position of a text with at least one newline
+#[cfg_attr(kani, kani::proof)]
+#[cfg_attr(kani, kani::unwind(6))]
+pub fn c15_helpers_total() {
+    let (l, n, p, len, pos) = scenario();
+    vassume!(valid(n, &p, len, pos) && n >= 1);
+    let (line, nl) = l.get_newline_before(pos);
+    let (start, end) = l.get_bounds(pos);
+    vassert!("C15.helpers.results_inside_text", line <= n && nl < len && start <= end && end < len);
+    std::mem::forget(l);
+}
+
 #[cfg_attr(kani, kani::proof)]
 #[cfg_attr(kani, kani::unwind(6))]
 pub fn c15_twin_reach() {
@@ -111,5 +123,6 @@ pub fn c15_twin_reach() {
 pub const TABLE: &[(&str, fn())] = &[
     ("c15_positions_total", c15_positions_total),
     ("c16_line_of_position", c16_line_of_position),
+    ("c15_helpers_total", c15_helpers_total),
     ("c15_twin_reach", c15_twin_reach),
 ];
